@@ -298,10 +298,11 @@ def lastOk (opts : Opts) (kids : List Node) : Bool :=
      | some (.text s _) => !endsWithSpace s
      | _ => true)
 
-/-- the tag a child is emitted with when it is a leaf (for `textOk`) -/
+/-- the tag a child is emitted with when it is not a text (for `textOk`) -/
 def prevTag (R : RParser) (D : ToDom) : Node → String
   | .leaf t a _ => (leafRule R D t a).getD ""
-  | _ => ""
+  | .elem t a _ _ => ((elemRule R D t a).map (·.1)).getD ""
+  | .text .. => ""
 
 mutual
 /-- `opts`: the whitespace mode inside the parent, `pt`: the parent's type -/
